@@ -428,7 +428,7 @@ func (w *c08World) evaluate(c c08Case, in []byte) (v c08Verdict, fails []c08Fail
 
 	var id, re []byte
 	var ntx, ptx [][]byte
-	var nHash, pHash, vHash, vBytes, dHash, dBytes, nsf []byte
+	var nHash, pHash, vHash, vBytes, dHash, dBytes, nsf, dnsf []byte
 	if p := ev.Catch(func() {
 		id = bd.ID()
 		ntx = c08TxIDs(bd.NormalTransactions())
@@ -444,6 +444,7 @@ func (w *c08World) evaluate(c c08Case, in []byte) (v c08Verdict, fails []c08Fail
 		}
 		dHash, dBytes = dg.Hash(), dg.Bytes()
 		nsf = bd.NetworkSectionFilter().Bytes()
+		dnsf = dg.NetworkSectionFilter().Bytes()
 		_, _ = bd.NTSHashEntryList()
 		_ = bd.LogsBloom().CompressedBytes()
 		var buf bytes.Buffer
@@ -486,7 +487,10 @@ func (w *c08World) evaluate(c c08Case, in []byte) (v c08Verdict, fails []c08Fail
 		fail("btp-digest-not-bound:"+c.Fam, "decoded BTP digest hash %s, result in input header commits to %s", c08Hex(dHash), c08Hex(want))
 	}
 	if !bytes.Equal(nsf, hin.NSFilter) {
-		fail("nsfilter-not-bound:"+c.Fam, "decoded NSFilter %x, input header says %x", nsf, hin.NSFilter)
+		fail("nsfilter-differs-from-input:"+c.Fam, "decoded NSFilter %x, input header says %x", nsf, hin.NSFilter)
+	}
+	if !bytes.Equal(dnsf, hin.NSFilter) {
+		fail("nsfilter-not-bound:"+c.Fam, "network section filter of the decoded BTP digest is %x, input header says %x", dnsf, hin.NSFilter)
 	}
 	// the body that was in the input is the body of the decoded block
 	if len(ntx) != len(bin.NormalTransactions) || len(ptx) != len(bin.PatchTransactions) {
